@@ -242,6 +242,41 @@ is_tbd() const {
 }
 
 /**
+ * If the name with template arguments refers to an alias template, returns
+ * the scope of the class it stands for with these arguments; otherwise
+ * nullptr.
+ */
+static CPPScope *
+instantiate_alias_scope(CPPScope *scope, const CPPNameComponent &name,
+                        CPPScope *current_scope, CPPScope *global_scope) {
+  CPPType *type = scope->find_type(name.get_name());
+  if (type == nullptr || type->get_subtype() != CPPDeclaration::ST_typedef ||
+      !type->is_template()) {
+    return nullptr;
+  }
+  type = type->instantiate(name.get_templ(), current_scope, global_scope)->as_type();
+  while (type != nullptr) {
+    if (type->get_subtype() == CPPDeclaration::ST_typedef) {
+      type = type->as_typedef_type()->_type;
+    } else if (type->get_subtype() == CPPDeclaration::ST_const) {
+      type = type->as_const_type()->_wrapped_around;
+    } else if (type->get_subtype() == CPPDeclaration::ST_tbd) {
+      CPPType *resolved = type->resolve_type(current_scope, global_scope);
+      if (resolved == type) {
+        return nullptr;
+      }
+      type = resolved;
+    } else {
+      break;
+    }
+  }
+  if (type != nullptr && type->as_struct_type() != nullptr) {
+    return type->as_struct_type()->get_scope();
+  }
+  return nullptr;
+}
+
+/**
  *
  */
 CPPScope *CPPIdentifier::
@@ -276,8 +311,14 @@ get_scope(CPPScope *current_scope, CPPScope *global_scope,
         return nullptr;
       }
       if (_names[i].has_templ()) {
-        next_scope = next_scope->instantiate(_names[i].get_templ(),
-                                             current_scope, global_scope);
+        CPPScope *alias_scope =
+          instantiate_alias_scope(scope, _names[i], current_scope, global_scope);
+        if (alias_scope != nullptr) {
+          next_scope = alias_scope;
+        } else {
+          next_scope = next_scope->instantiate(_names[i].get_templ(),
+                                               current_scope, global_scope);
+        }
       }
     }
     scope = next_scope;
@@ -321,8 +362,14 @@ get_scope(CPPScope *current_scope, CPPScope *global_scope,
       return nullptr;
     }
     if (_names[i].has_templ()) {
-      next_scope = next_scope->instantiate(_names[i].get_templ(),
-                                           current_scope, global_scope);
+      CPPScope *alias_scope =
+        instantiate_alias_scope(scope, _names[i], current_scope, global_scope);
+      if (alias_scope != nullptr) {
+        next_scope = alias_scope;
+      } else {
+        next_scope = next_scope->instantiate(_names[i].get_templ(),
+                                             current_scope, global_scope);
+      }
     }
     scope = next_scope;
     i++;
